@@ -167,7 +167,6 @@ fn check_tuples(rep: &mut Report, pend: &mut Vec<Pending>, dims: &Dims, tuples: 
         rep.case(if trivial { None } else { Some(format!("a{:?}{:?}", dims, idx)) });
         rep.bump(&format!("abs_index.rank{}.{}", dims.len(), if inb { "inside" } else { "outside" }));
         let got = impl_abs(&arr, idx);
-        let mismatch = idx.len() != dims.len();
         match got {
             Abs::Ok(k) => {
                 if !inb {
@@ -217,7 +216,7 @@ fn check_tuples(rep: &mut Report, pend: &mut Vec<Pending>, dims: &Dims, tuples: 
                         expected: "Ok(position)".into(),
                         note: "every tuple inside the declared bounds is a valid subscript".into(),
                     });
-                } else if got == Abs::Panic && !mismatch {
+                } else if got == Abs::Panic {
                     rep.fail(Failure {
                         kind: Kind::ImplVsProperty,
                         signature: "abs_index:panics".into(),
@@ -229,8 +228,8 @@ fn check_tuples(rep: &mut Report, pend: &mut Vec<Pending>, dims: &Dims, tuples: 
                 }
             }
         }
-        // a rank mismatch is a debug assertion in the code (the linter keeps ranks equal); the model says `none`
-        let imp = if mismatch && got == Abs::Panic { "none".to_owned() } else { abs_str(got) };
+        // a wrong number of subscripts is Subscript out of range (725b882); the model says `none`
+        let imp = abs_str(got);
         let args = format!("{} {}", dims_sx(dims), sx::ints(idx.iter()));
         pend.push(Pending {
             req: format!("(arr.absIndex {})", args),
@@ -756,6 +755,7 @@ fn check_program(rep: &mut Report, family: &str, e: &Expect) -> Option<Run> {
     let want_result = match e.error {
         None => "ok".to_owned(),
         Some(9) => "error SubscriptOutOfRange".to_owned(),
+        Some(7) => "error OutOfMemory".to_owned(),
         Some(c) => format!("error code {}", c),
     };
     let got_lines: Vec<String> = run.lines.iter().map(|l| l.trim_end().to_owned()).collect();
@@ -1229,6 +1229,432 @@ fn check_fix_program(rep: &mut Report, pend: &mut Vec<Pending>, p: &FixProgram) 
     }
 }
 
+
+// ---------------------------------------------------------------------------------------------
+// family D: stores through nested paths with conversion, tied to RbModel.ArrPath (`arr.path`)
+// ---------------------------------------------------------------------------------------------
+
+/// `x = num / den` exactly (`den` a power of two); the values used here are multiples of 1/8 below 2^31.
+fn rat_of_f64(x: f64) -> (i128, u128) {
+    let mut den: u128 = 1;
+    let mut y = x;
+    while y.fract() != 0.0 && den < (1 << 60) {
+        y *= 2.0;
+        den *= 2;
+    }
+    (y as i128, den)
+}
+
+fn show_variant(v: &Variant) -> String {
+    match v {
+        Variant::VInteger(i) => format!("(int {})", i),
+        Variant::VLong(i) => format!("(long {})", i),
+        Variant::VSingle(f) => {
+            let (n, d) = rat_of_f64(*f as f64);
+            format!("(sgl {} {})", n, d)
+        }
+        Variant::VDouble(f) => {
+            let (n, d) = rat_of_f64(*f);
+            format!("(dbl {} {})", n, d)
+        }
+        Variant::VString(s) => format!("(str {})", sx::chars(s)),
+        _ => "container".into(),
+    }
+}
+
+#[derive(Clone, Copy, PartialEq, Eq, Debug)]
+enum LTy {
+    Int,
+    Long,
+    Sgl,
+    Dbl,
+    Str,
+    Fix(usize),
+}
+
+impl LTy {
+    fn decl(&self) -> String {
+        match self {
+            LTy::Int => "INTEGER".into(),
+            LTy::Long => "LONG".into(),
+            LTy::Sgl => "SINGLE".into(),
+            LTy::Dbl => "DOUBLE".into(),
+            LTy::Str => "STRING".into(),
+            LTy::Fix(n) => format!("STRING * {}", n),
+        }
+    }
+    fn suffix(&self) -> &'static str {
+        match self {
+            LTy::Int => "%",
+            LTy::Long => "&",
+            LTy::Sgl => "!",
+            LTy::Dbl => "#",
+            LTy::Str | LTy::Fix(_) => "$",
+        }
+    }
+    fn ety(&self) -> String {
+        match self {
+            LTy::Int => "(num int)".into(),
+            LTy::Long => "(num long)".into(),
+            LTy::Sgl => "(num sgl)".into(),
+            LTy::Dbl => "(num dbl)".into(),
+            LTy::Str => "(num str)".into(),
+            LTy::Fix(n) => format!("(fix {})", n),
+        }
+    }
+    fn is_str(&self) -> bool {
+        matches!(self, LTy::Str | LTy::Fix(_))
+    }
+    fn default(&self) -> Variant {
+        match self {
+            LTy::Int => Variant::VInteger(0),
+            LTy::Long => Variant::VLong(0),
+            LTy::Sgl => Variant::VSingle(0.0),
+            LTy::Dbl => Variant::VDouble(0.0),
+            LTy::Str => Variant::VString(String::new()),
+            LTy::Fix(n) => Variant::VString(" ".repeat(*n)),
+        }
+    }
+}
+
+fn name_sx(n: &str) -> String {
+    sx::chars(n)
+}
+
+struct Leaf {
+    text: String,
+    model_path: String,
+    dump_name: String,
+    steps: Vec<Step>,
+    ty: LTy,
+    /// reference content
+    value: Variant,
+}
+
+/// numeric value `k / 8` converted to a numeric type; `None` = Overflow
+fn convert_num(x: f64, ty: LTy) -> Option<Variant> {
+    let rounded = if x >= 0.0 { (x + 0.5).floor() } else { -((-x + 0.5).floor()) };
+    match ty {
+        LTy::Int => {
+            if (-32768.0..=32767.0).contains(&rounded) {
+                Some(Variant::VInteger(rounded as i32))
+            } else {
+                None
+            }
+        }
+        LTy::Long => {
+            if (-2147483648.0..=2147483647.0).contains(&rounded) {
+                Some(Variant::VLong(rounded as i64))
+            } else {
+                None
+            }
+        }
+        LTy::Sgl => Some(Variant::VSingle(x as f32)),
+        LTy::Dbl => Some(Variant::VDouble(x)),
+        _ => None,
+    }
+}
+
+struct PathProgram {
+    text: String,
+    vars_sx: String,
+    ops: Vec<String>,
+    /// what the model must answer for each op if the program behaves as the reference says
+    op_results: Vec<String>,
+    error: Option<i32>,
+    leaves: Vec<Leaf>,
+}
+
+fn gen_path_program(rng: &mut Rng, rep: &mut Report) -> PathProgram {
+    let leaf_types = [LTy::Int, LTy::Long, LTy::Sgl, LTy::Dbl, LTy::Fix(1), LTy::Fix(2), LTy::Fix(4)];
+    let pick_ty = |rng: &mut Rng| *rng.pick(&leaf_types[..]);
+    let inner: Vec<(String, LTy)> = (0..rng.range(1, 3)).map(|k| (format!("{}", ["X", "Y", "Zed"][k as usize]), pick_ty(rng))).collect();
+    let mut outer: Vec<(String, Option<LTy>)> = (0..rng.range(1, 3)).map(|k| (format!("{}", ["K", "Fld", "S2"][k as usize]), Some(pick_ty(rng)))).collect();
+    let pos = rng.below(outer.len() as u64 + 1) as usize;
+    outer.insert(pos, ("P".into(), None));
+    let mut text = String::from("TYPE Inner\n");
+    for (n, t) in &inner {
+        text.push_str(&format!("  {} AS {}\n", n, t.decl()));
+    }
+    text.push_str("END TYPE\nTYPE T\n");
+    for (n, t) in &outer {
+        match t {
+            Some(t) => text.push_str(&format!("  {} AS {}\n", n, t.decl())),
+            None => text.push_str(&format!("  {} AS Inner\n", n)),
+        }
+    }
+    text.push_str("END TYPE\n");
+    let ra_rank = rng.range(1, 2) as usize;
+    let ra_dims = small_program_dims(rng, ra_rank);
+    let a_dims = small_program_dims(rng, 1);
+    let a_ty = *rng.pick(&[LTy::Int, LTy::Long, LTy::Sgl, LTy::Dbl, LTy::Str, LTy::Fix(3)]);
+    let s_ty = *rng.pick(&[LTy::Fix(5), LTy::Str, LTy::Fix(2)]);
+    let spec = |d: &Dims| d.iter().map(|(l, u)| format!("{} TO {}", l, u)).collect::<Vec<_>>().join(", ");
+    text.push_str(&format!(
+        "DIM R AS T\nDIM RA({}) AS T\nDIM A({}) AS {}\nDIM S AS {}\nDIM FX AS STRING * 3\n",
+        spec(&ra_dims),
+        spec(&a_dims),
+        a_ty.decl(),
+        s_ty.decl()
+    ));
+    // model description of the variables
+    let leaf_sx = |t: &LTy| format!("(leaf {})", show_variant(&t.default()));
+    let inner_sx = format!("(udt {})", sx::list(inner.iter().map(|(n, t)| format!("({} {})", name_sx(n), leaf_sx(t)))));
+    let t_sx = format!(
+        "(udt {})",
+        sx::list(outer.iter().map(|(n, t)| match t {
+            Some(t) => format!("({} {})", name_sx(n), leaf_sx(t)),
+            None => format!("({} {})", name_sx(n), inner_sx),
+        }))
+    );
+    let a_name = format!("A{}", a_ty.suffix());
+    let s_name = "S$".to_owned();
+    let vars_sx = sx::list([
+        format!("({} {})", name_sx("R"), t_sx),
+        format!("({} (new {} {}))", name_sx("RA"), dims_sx(&ra_dims), t_sx),
+        format!("({} (new {} {}))", name_sx(&a_name), dims_sx(&a_dims), leaf_sx(&a_ty)),
+        format!("({} {})", name_sx(&s_name), leaf_sx(&s_ty)),
+        format!("({} {})", name_sx("FX$"), leaf_sx(&LTy::Fix(3))),
+    ]);
+    // leaves
+    let mut leaves: Vec<Leaf> = vec![];
+    let root = |n: &str| format!("(root {})", name_sx(n));
+    let mut record_roots: Vec<(String, String, String, Vec<Step>)> = vec![("R".into(), root("R"), "R".into(), vec![])];
+    for idx in enumerate_box(&ra_dims, 0) {
+        let it = idx.iter().map(|i| i.to_string()).collect::<Vec<_>>().join(", ");
+        record_roots.push((format!("RA({})", it), format!("(elem {} {})", root("RA"), sx::ints(idx.iter())), "RA".into(), vec![Step::Idx(idx)]));
+    }
+    for (rt, rm, rn, rs) in &record_roots {
+        for (n, t) in &outer {
+            match t {
+                Some(t) => {
+                    let mut st = rs.clone();
+                    st.push(Step::Field(n.clone()));
+                    leaves.push(Leaf { text: format!("{}.{}", rt, n), model_path: format!("(prop {} {})", rm, name_sx(n)), dump_name: rn.clone(), steps: st, ty: *t, value: t.default() });
+                }
+                None => {
+                    for (m, t) in &inner {
+                        let mut st = rs.clone();
+                        st.push(Step::Field(n.clone()));
+                        st.push(Step::Field(m.clone()));
+                        leaves.push(Leaf {
+                            text: format!("{}.{}.{}", rt, n, m),
+                            model_path: format!("(prop (prop {} {}) {})", rm, name_sx(n), name_sx(m)),
+                            dump_name: rn.clone(),
+                            steps: st,
+                            ty: *t,
+                            value: t.default(),
+                        });
+                    }
+                }
+            }
+        }
+    }
+    for idx in enumerate_box(&a_dims, 0) {
+        leaves.push(Leaf {
+            text: format!("A({})", idx[0]),
+            model_path: format!("(elem {} {})", root(&a_name), sx::ints(idx.iter())),
+            dump_name: a_name.clone(),
+            steps: vec![Step::Idx(idx)],
+            ty: a_ty,
+            value: a_ty.default(),
+        });
+    }
+    leaves.push(Leaf { text: "S".into(), model_path: root(&s_name), dump_name: s_name.clone(), steps: vec![], ty: s_ty, value: s_ty.default() });
+    let fx = leaves.len();
+    leaves.push(Leaf { text: "FX".into(), model_path: root("FX$"), dump_name: "FX$".into(), steps: vec![], ty: LTy::Fix(3), value: LTy::Fix(3).default() });
+
+    let mut ops: Vec<String> = vec![];
+    let mut op_results: Vec<String> = vec![];
+    let mut error = None;
+    let n_ops = rng.range(1, 14);
+    let fit_str = |ty: LTy, s: &[char]| -> Variant {
+        match ty {
+            LTy::Fix(n) => Variant::VString(ref_fix(s, n).into_iter().collect()),
+            _ => Variant::VString(s.iter().collect()),
+        }
+    };
+    for step in 0..n_ops {
+        let last = step == n_ops - 1;
+        let k = rng.below(leaves.len() as u64) as usize;
+        let ty = leaves[k].ty;
+        // spell field names in another case now and then (R.p.x)
+        let target_text = if rng.chance(1, 4) {
+            let t = leaves[k].text.clone();
+            match t.find('.') {
+                Some(i) => format!("{}{}", &t[..i], t[i..].to_lowercase()),
+                None => t,
+            }
+        } else {
+            leaves[k].text.clone()
+        };
+        if ty.is_str() {
+            let n = if let LTy::Fix(n) = ty { n } else { 4 };
+            match rng.below(4) {
+                0 | 1 => {
+                    let v = random_chars(rng, 2 * n + 1, false);
+                    let by_ref = rng.chance(1, 2);
+                    if by_ref {
+                        text.push_str(&format!("SetS {}, {}\n", target_text, string_expr(&v)));
+                        ops.push(format!("(w {} {} (str {}))", leaves[k].model_path, ty.ety(), sx::ints(v.iter().map(|c| *c as u32))));
+                        rep.bump("program.path.string-by-ref");
+                    } else {
+                        text.push_str(&format!("{} = {}\n", target_text, string_expr(&v)));
+                        ops.push(format!("(a {} (num str) {} (str {}))", leaves[k].model_path, ty.ety(), sx::ints(v.iter().map(|c| *c as u32))));
+                        rep.bump("program.path.string-assign");
+                    }
+                    leaves[k].value = fit_str(ty, &v);
+                }
+                2 => {
+                    // from the STRING * 3 variable FX: static type STRING * 3
+                    let cur: Vec<char> = match &leaves[fx].value {
+                        Variant::VString(s) => s.chars().collect(),
+                        _ => vec![],
+                    };
+                    text.push_str(&format!("{} = FX\n", target_text));
+                    ops.push(format!("(a {} (fix 3) {} (str {}))", leaves[k].model_path, ty.ety(), sx::ints(cur.iter().map(|c| *c as u32))));
+                    leaves[k].value = fit_str(ty, &cur);
+                    rep.bump("program.path.string-from-fixed");
+                }
+                _ => {
+                    let v = random_chars(rng, 5, false);
+                    text.push_str(&format!("FX = {}\n", string_expr(&v)));
+                    ops.push(format!("(a {} (num str) (fix 3) (str {}))", leaves[fx].model_path, sx::ints(v.iter().map(|c| *c as u32))));
+                    leaves[fx].value = fit_str(LTy::Fix(3), &v);
+                    rep.bump("program.path.string-assign");
+                }
+            }
+            op_results.push("ok".into());
+        } else {
+            // numeric: a value k/8 held in a variable of an explicit type
+            let sty = *rng.pick(&[LTy::Int, LTy::Long, LTy::Sgl, LTy::Dbl]);
+            let want_overflow = last && rng.chance(1, 3) && matches!(ty, LTy::Int | LTy::Long);
+            let x: f64 = match sty {
+                LTy::Int => rng.range(-32768, 32767) as f64,
+                LTy::Long => {
+                    if ty == LTy::Sgl || !rng.chance(1, 3) {
+                        rng.range(-(1 << 20), 1 << 20) as f64
+                    } else {
+                        rng.range(-2147483648, 2147483647) as f64
+                    }
+                }
+                LTy::Sgl => rng.range(-(1 << 22), 1 << 22) as f64 / 8.0,
+                _ => {
+                    if ty == LTy::Sgl || !rng.chance(1, 4) {
+                        rng.range(-(1 << 22), 1 << 22) as f64 / 8.0
+                    } else {
+                        rng.range(-(1i64 << 35), 1i64 << 35) as f64 / 8.0
+                    }
+                }
+            };
+            let held = convert_num(x, sty).unwrap();
+            let converted = convert_num(x, ty);
+            if converted.is_none() && !(want_overflow || last) {
+                // keep overflow for the end of the program
+                continue;
+            }
+            let var = format!("V{}", sty.suffix());
+            // a decimal literal without `#` is read as a SINGLE whatever its number of digits: spell DOUBLEs with `#`
+            let lit_text = if sty == LTy::Dbl { format!("{:.3}#", x) } else { format!("{}", x) };
+            let by_ref = converted.is_some() && sty == ty && matches!(ty, LTy::Int | LTy::Long) && rng.chance(1, 2);
+            if by_ref {
+                text.push_str(&format!("{} = {}\nSet{} {}, {}\n", var, lit_text, if ty == LTy::Int { "I" } else { "L" }, target_text, var));
+                ops.push(format!("(w {} {} {})", leaves[k].model_path, ty.ety(), show_variant(&held)));
+                rep.bump("program.path.numeric-by-ref");
+            } else {
+                text.push_str(&format!("{} = {}\n{} = {}\n", var, lit_text, target_text, var));
+                ops.push(format!("(a {} {} {} {})", leaves[k].model_path, sty.ety(), ty.ety(), show_variant(&held)));
+                rep.bump(&format!("program.path.numeric-assign.{:?}-to-{:?}", sty, ty));
+            }
+            match converted {
+                Some(c) => {
+                    leaves[k].value = c;
+                    op_results.push("ok".into());
+                }
+                None => {
+                    op_results.push("(err overflow)".into());
+                    error = Some(6);
+                    rep.bump("program.path.tail-overflow");
+                    break;
+                }
+            }
+        }
+    }
+    if error.is_none() && rng.chance(1, 4) {
+        // a store through a subscript outside the box, into a field of a field
+        let idx = random_tuple(rng, &ra_dims, 0);
+        if !in_box(&ra_dims, &idx) && idx.iter().all(|i| (-32768..=32767).contains(i)) {
+            if let Some(l) = leaves.iter().find(|l| l.dump_name == "RA" && !l.ty.is_str()) {
+                let it = idx.iter().map(|i| i.to_string()).collect::<Vec<_>>().join(", ");
+                let close = l.text.find(')').unwrap();
+                let target_text = format!("RA({}){}", it, &l.text[close + 1..]);
+                let inner_path = l.model_path.replacen(
+                    &format!("(elem {} {})", root("RA"), match &l.steps[0] { Step::Idx(i) => sx::ints(i.iter()), _ => String::new() }),
+                    &format!("(elem {} {})", root("RA"), sx::ints(idx.iter())),
+                    1,
+                );
+                text.push_str(&format!("V% = 1\n{} = V%\n", target_text));
+                ops.push(format!("(a {} (num int) {} (int 1))", inner_path, l.ty.ety()));
+                op_results.push("e9".into());
+                error = Some(9);
+                rep.bump("program.path.tail-subscript");
+            }
+        }
+    }
+    text.push_str("PRINT \"done\"\n");
+    text.push_str("SUB SetS(X$, V$)\n  X$ = V$\nEND SUB\nSUB SetI(X%, V%)\n  X% = V%\nEND SUB\nSUB SetL(X&, V&)\n  X& = V&\nEND SUB\n");
+    PathProgram { text, vars_sx, ops, op_results, error, leaves }
+}
+
+fn check_path_program(rep: &mut Report, pend: &mut Vec<Pending>, p: &PathProgram) {
+    let run = run_prog(&p.text);
+    let want = match p.error {
+        None => "ok".to_owned(),
+        Some(6) => "error Overflow".to_owned(),
+        Some(9) => "error SubscriptOutOfRange".to_owned(),
+        Some(c) => format!("error code {}", c),
+    };
+    if run.result != want {
+        rep.fail(Failure {
+            kind: Kind::ImplVsProperty,
+            signature: "program:path:result".into(),
+            input: p.text.clone(),
+            implementation: run.result.clone(),
+            expected: want,
+            note: "generated program with stores through nested paths".into(),
+        });
+        return;
+    }
+    let mut imp: Vec<String> = p.op_results.clone();
+    let mut reads: Vec<String> = vec![];
+    for l in &p.leaves {
+        let got = run.vars.iter().find(|(n, _)| *n == l.dump_name).and_then(|(_, v)| resolve(v, &l.steps));
+        let got_s = got.map(show_variant).unwrap_or("none".into());
+        let want_s = show_variant(&l.value);
+        if got_s != want_s {
+            rep.fail(Failure {
+                kind: Kind::ImplVsProperty,
+                signature: "program:path:final-value".into(),
+                input: p.text.clone(),
+                implementation: format!("{} = {}", l.text, got_s),
+                expected: want_s,
+                note: "every location holds the last value stored into it, converted to its type; all others their initial value".into(),
+            });
+            return;
+        }
+        reads.push(format!("(r {})", l.model_path));
+        imp.push(got_s);
+    }
+    let mut ops = p.ops.clone();
+    ops.extend(reads);
+    pend.push(Pending {
+        req: format!("(arr.path {} ({}))", p.vars_sx, ops.join(" ")),
+        imp: sx::list(imp.iter()),
+        sig: "model:path",
+        note: "RbModel.ArrPath.{assign, writeBack, resolve} vs the interpreter (var_path.rs, allocation.rs, Cast/FixLength emission)",
+    });
+}
+
 // ---------------------------------------------------------------------------------------------
 
 fn main() {
@@ -1356,6 +1782,27 @@ fn main() {
         rep.case(Some(format!("pa{}", e.text)));
         check_program(&mut rep, "array", &e);
     }
+    // an array whose elements cannot be counted (2^64) is Out of memory (7), also in the model's checked count
+    {
+        let e = Expect {
+            text: "DIM A(-32768 TO 32767, -32768 TO 32767, -32768 TO 32767, -32768 TO 32767) AS INTEGER\nPRINT \"not reached\"\n".into(),
+            lines: vec![],
+            error: Some(7),
+            dump: vec![],
+        };
+        rep.case(Some(format!("pa{}", e.text)));
+        check_program(&mut rep, "array", &e);
+        let full: Dims = vec![(-32768, 32767); 4];
+        let three: Dims = vec![(-32768, 32767); 3];
+        for (d, want) in [(&full, "none".to_owned()), (&three, (1u64 << 48).to_string())] {
+            pend.push(Pending {
+                req: format!("(arr.dimsLenChecked {})", dims_sx(d)),
+                imp: want,
+                sig: "model:dimsLenChecked",
+                note: "RbModel.Arr.dimsLenChecked vs dimensions_to_array_length (2^64 elements: Out of memory; 2^48: counted)",
+            });
+        }
+    }
     for k in 0..n_b {
         let e = gen_record_program(&mut rng, &mut rep);
         rep.case(Some(format!("pb{}", e.text)));
@@ -1378,6 +1825,16 @@ fn main() {
             rep.sample(J::s(p.text.clone()));
         }
         check_fix_program(&mut rep, &mut pend, &p);
+    }
+    flush(&mut rep, &mut pend);
+    let n_d = if thorough { 3000 } else { 300 };
+    for k in 0..n_d {
+        let p = gen_path_program(&mut rng, &mut rep);
+        rep.case(Some(format!("pd{}", p.text)));
+        if k == 0 {
+            rep.sample(J::s(p.text.clone()));
+        }
+        check_path_program(&mut rep, &mut pend, &p);
     }
     flush(&mut rep, &mut pend);
     rep.finish();
